@@ -954,5 +954,78 @@ example : (observe (outcomeC Quirks.current ⟨true, true, none, false, false⟩
     ⟨"192.0.2.1", "192.0.2.1", [192, 0, 2, 1], "dtn://peer/",
      some ⟨some [.ip [192, 0, 2, 1], .uri "dtn://other/"]⟩⟩)).termReasons = [4] := by decide
 
+/-! ## The configured requirement comes from a configuration file -/
+
+/-- **Every policy option written in the configuration file is the option in force** – whatever its
+    value (`false` and `null` included); an option that is not in the file has its documented default. -/
+theorem C15_config_file_honoured (passive : Bool) (f : CfgFile) :
+    (∀ v, f.tlsEnable = some v → (loadFile passive f).tlsEnable = v) ∧
+    (∀ v, f.requireTls = some v → (loadFile passive f).requireTls = v) ∧
+    (∀ v, f.requireHost = some v → (loadFile passive f).requireHost = v) ∧
+    (∀ v, f.requireNode = some v → (loadFile passive f).requireNode = v) ∧
+    (f.tlsEnable = none → (loadFile passive f).tlsEnable = true) ∧
+    (f.requireTls = none → (loadFile passive f).requireTls = none) ∧
+    (f.requireHost = none → (loadFile passive f).requireHost = false) ∧
+    (f.requireNode = none → (loadFile passive f).requireNode = false) ∧
+    (loadFile passive f).passive = passive := by
+  refine ⟨?_, ?_, ?_, ?_, ?_, ?_, ?_, ?_, rfl⟩ <;> intro h <;> (try intro h') <;> simp_all [loadFile] <;> rfl
+
+example : loadFile true ⟨some false, some (some false), none, some true⟩ = ⟨true, false, some false, false, true⟩ := by
+  decide
+
+/-- **A node whose configuration file forbids TLS (`require_tls: false`) never proceeds secured.** -/
+theorem C15_file_forbid_never_tls (passive : Bool) (f : CfgFile) (e : Env) (p : PeerId)
+    (h : f.requireTls = some (some false)) :
+    (outcome Quirks.current (loadFile passive f) e p).attempted = false ∧
+    (outcome Quirks.current (loadFile passive f) e p).isSecure = false ∧
+    (outcome Quirks.current (loadFile passive f) e p).secured = [] :=
+  C15_forbid_never_tls Quirks.current (loadFile passive f) e p ((C15_config_file_honoured passive f).2.1 _ h)
+
+/-- **A node whose configuration file requires TLS (`require_tls: true`) never proceeds in the clear.** -/
+theorem C15_file_require_never_clear (passive : Bool) (f : CfgFile) (e : Env) (p : PeerId)
+    (h : f.requireTls = some (some true)) :
+    Msg.sessInit ∉ (outcome Quirks.current (loadFile passive f) e p).clear ∧
+    (outcome Quirks.current (loadFile passive f) e p).contact ≠ .proceedClear ∧
+    ((outcome Quirks.current (loadFile passive f) e p).state = .established →
+      (outcome Quirks.current (loadFile passive f) e p).isSecure = true) :=
+  C15_require_never_clear Quirks.current (loadFile passive f) e p ((C15_config_file_honoured passive f).2.1 _ h)
+
+/-- **A node whose configuration file disables TLS (`tls_enable: false`) does not offer it and never
+    starts a handshake.** -/
+theorem C15_file_tls_disabled_never_tls (passive : Bool) (f : CfgFile) (e : Env) (p : PeerId)
+    (h : f.tlsEnable = some false) :
+    (outcome Quirks.current (loadFile passive f) e p).attempted = false ∧
+    (outcome Quirks.current (loadFile passive f) e p).isSecure = false ∧
+    Msg.contact true ∉ (outcome Quirks.current (loadFile passive f) e p).clear := by
+  have ht : (loadFile passive f).tlsEnable = false := (C15_config_file_honoured passive f).1 _ h
+  have hatt : (outcome Quirks.current (loadFile passive f) e p).attempted = false := by
+    cases ha : (outcome Quirks.current (loadFile passive f) e p).attempted
+    · rfl
+    · have := ((C15_attempt_iff_both _ _ _ _).mp ha).1
+      rw [ht] at this
+      cases this
+  refine ⟨hatt, ?_, ?_⟩
+  · cases hs : (outcome Quirks.current (loadFile passive f) e p).isSecure
+    · rfl
+    · rw [outcome_eq] at hs
+      have hc := (render_isSecure _ _ _ _ _).mp hs
+      have := ((contactDecision_proceedTls_iff _ _ _ _ _).mp hc).1
+      rw [ht] at this
+      cases this
+  · rw [outcome_eq]
+    generalize ctOf Quirks.current (loadFile passive f) e = ct
+    generalize sessDecision Quirks.current (loadFile passive f) e p ct = ss
+    generalize hc : loadFile passive f = c at ht
+    rcases c with ⟨pas, te, rt, rh, rn⟩
+    simp only at ht
+    subst ht
+    cases pas <;> rcases ct with _ | _ | (_ | _) | _ <;> cases ss <;>
+      simp [render, Contact.isTls, Contact.proceeds, Contact.closedBeforeFlush, Sess.delivered]
+
+example : (outcome Quirks.current (loadFile false ⟨none, some (some false), none, none⟩) ⟨1, .ok, false, false⟩
+    ⟨true, true, .matched, .matched, .matched⟩).closed = true := by decide
+example : (outcome Quirks.current (loadFile true ⟨some false, none, none, none⟩) ⟨1, .ok, false, false⟩
+    ⟨true, false, .matched, .absent, .matched⟩).clear = [.contact false, .sessInit] := by decide
+
 end Props
 end DtnVerif
